@@ -101,7 +101,7 @@ def run(rep, tier, seed):
     for mode in ("emacs", "vi"):
         ss = [s for s in scripts if s[0] == mode]
         for ci, chunk in enumerate(chunks(ss, per_case)):
-            cs = {"id": "c07-%s-%d" % (mode, ci), "inputrc": "set editing-mode vi\n" if mode == "vi" else "", "w": 80, "h": 24, "prompt": "> ",
+            cs = {"id": "c07-%s-%d" % (mode, ci), "inputrc": ("set editing-mode vi\n" if mode == "vi" else "") + case_options(rng, ci, skip=("autocomplete", "history-autosuggest", "revert-all-at-newline")), "w": 80, "h": 24, "prompt": "> ",
                   "binds": binds, "sources": [{"name": "main", "kind": "mem", "lines": ["one", "two words", "three"]}],
                   "comp": {"cands": CANDS, "byword": True}, "sessions": [], "setups": []}
             # first session: put something on the kill ring
